@@ -119,10 +119,10 @@ PLAN = {
             'random': suite(['fub', 'fu', 'mb', 'mu', 'ja', 'bu'], 250, 2500, 20, 200, profiles=('stale',))},
     'C06': {'mc': mcs('fub', 'fob', 'mb', 'bo', 'ja', 'tja'),
             'gen': gens('fub', 'fob', 'mb', 'bo', 'ja', 'tja'),
-            'random': suite(ALL_KINDS, 200, 2000, 10, 100) + [rnd(k, 'small', 'panic', 80, 800) for k in ALL_KINDS]},
+            'random': suite(ALL_KINDS, 200, 2000, 10, 100) + [rnd(k, 'small', 'panic', 60, 600) for k in ALL_KINDS] + [rnd(k, 'small', 'dpanic', 60, 600) for k in ALL_KINDS]},
     'C07': {'mc': mcs('ja', 'tja'),
             'gen': gens('ja', 'tja'),
-            'random': suite(JOIN_KINDS, 600, 6000, 60, 600) + [rnd(k, 'small', 'panic', 300, 3000) for k in JOIN_KINDS]},
+            'random': suite(JOIN_KINDS, 600, 6000, 60, 600) + [rnd(k, 'small', 'panic', 200, 2000) for k in JOIN_KINDS] + [rnd(k, 'small', 'dpanic', 200, 2000) for k in JOIN_KINDS]},
     'C08': {'mc': mcs('fub', 'fu', 'mu'),
             'gen': gens('fub', 'fu', 'mu', 'bu'),
             'random': suite(COLL_KINDS + MERGE_KINDS, 250, 2500, 30, 300, profiles=('oscillate',)) + suite(['bu', 'bo', 'ja'], 100, 1000, 10, 100)},
@@ -137,7 +137,8 @@ PLAN = {
             'random': suite(MERGE_KINDS, 500, 5000, 60, 600, profiles=('budget',))},
     'C12': {'mc': mcs('fub', 'fub_b1', 'fu', 'mb', 'mu'),
             'gen': gens('fub', 'fu', 'mb'),
-            'random': suite(COLL_KINDS + MERGE_KINDS, 250, 2500, 20, 200, profiles=('stale',))},
+            'random': suite(COLL_KINDS + MERGE_KINDS, 250, 2500, 20, 200, profiles=('stale',))
+                      + [rnd(k, 'small', 'panic', 80, 800) for k in COLL_KINDS + MERGE_KINDS]},
     'C13': {'mc': mcs('fub_perp', 'mb_perp', 'fu_perp', 'mu_perp') + [live('fub'), live('mb', MaxPolls=2), live('mu', NC=2), live('fu')],
             'gen': gens('fub', 'mb'),
             'random': suite(COLL_KINDS + MERGE_KINDS, 150, 1500, 10, 100, profiles=('budget',))
